@@ -213,7 +213,7 @@ theorem buildPath0_acc {e0 e1 : Ens} {allowed : Bool} {old1 : List Frame} {bw : 
     ∃ first1 second1 rest tmp s, old1 = first1 :: second1 :: rest ∧ allowed = true ∧
       propagate (e1.maxlen - 1) e0.i0 e0.i2 first1 true bw = some (tmp, s) ∧
       path0 = tmp.reverse ++ [second1] ∧ 2 ≤ tmp.length ∧ tmp.length + 1 < e0.maxlen ∧
-      rq = [propReq 0 (e1.maxlen - 1) e0.i0 e0.i2 first1 true, Req.dump 1 1 second1.cfg] := by
+      rq = [propReq 0 (e1.maxlen - 1) e0.i0 e0.i2 first1 true, Req.dump 1 1 second1.cfg true] := by
   obtain ⟨hne, h3, _⟩ := status0_acc hs
   unfold buildPath0 at h
   cases old1 with
@@ -269,7 +269,7 @@ theorem buildPath1_acc {e1 : Ens} {allowed : Bool} {old0 : List Frame} {last0 : 
     ∃ pre secondLast last tmp s, old0 = pre ++ [secondLast, last] ∧ allowed = true ∧
       propagate (e1.maxlen - 1) e1.i0 e1.i2 last0 false fw = some (tmp, s) ∧
       path1 = secondLast :: tmp ∧ 2 ≤ tmp.length ∧ tmp.length + 1 < e1.maxlen ∧
-      rq = [propReq 1 (e1.maxlen - 1) e1.i0 e1.i2 last0 false, Req.dump 0 0 secondLast.cfg] := by
+      rq = [propReq 1 (e1.maxlen - 1) e1.i0 e1.i2 last0 false, Req.dump 0 0 secondLast.cfg true] := by
   obtain ⟨hlt, h3⟩ := status1_acc hs
   unfold buildPath1 at h
   cases allowed with
